@@ -537,6 +537,15 @@ func fzRun(c *fzCase, res *JobResult) *fzOut {
 	var ms0 runtime.MemStats
 	runtime.ReadMemStats(&ms0)
 	unix.Umask(0o022)
+	// both gzip paths: the external unpigz helper and the built-in reader (chosen by the case's own seed, so a
+	// replay takes the same path)
+	if (c.RSeed>>7)&1 == 1 {
+		os.Setenv("MOBY_DISABLE_PIGZ", "1")
+		tag("gzip:builtin")
+	} else {
+		os.Unsetenv("MOBY_DISABLE_PIGZ")
+		tag("gzip:unpigz")
+	}
 	t0 := time.Now()
 	ret, errText, pan := fzCall(c, fzReader(c))
 	el := time.Since(t0)
